@@ -25,6 +25,10 @@ type Script struct {
 	// WriteErrAt: fail the k-th Write call (1-based; 0 = never).
 	WriteErrAt int
 	writes     int
+	// EndErr, when set, is what Read returns once the scripted response is exhausted (instead of io.EOF): the
+	// connection fails at that point; WriteErr is what a failing Write returns (default xport.ErrInjected).
+	EndErr   error
+	WriteErr error
 }
 
 func (s *Script) Read(p []byte) (int, error) {
@@ -36,7 +40,11 @@ func (s *Script) Read(p []byte) (int, error) {
 	if s.resp == nil {
 		s.resp = xport.NewChunker(s.Respond(s.Written.Bytes()), s.Plan)
 	}
-	return s.resp.Read(p)
+	n, err := s.resp.Read(p)
+	if err == io.EOF && s.EndErr != nil {
+		err = s.EndErr
+	}
+	return n, err
 }
 
 func (s *Script) Write(p []byte) (int, error) {
@@ -47,6 +55,9 @@ func (s *Script) Write(p []byte) (int, error) {
 	}
 	s.writes++
 	if s.WriteErrAt > 0 && s.writes >= s.WriteErrAt {
+		if s.WriteErr != nil {
+			return 0, s.WriteErr
+		}
 		return 0, xport.ErrInjected
 	}
 	s.Written.Write(p)
